@@ -142,8 +142,15 @@ func createCompiledRouteHandler(route *ast.Route, bytecode []byte, wsHub *websoc
 		// params) so compiled routes can read query.X the same as interpreted
 		// routes. Reuses interpreter.ProcessQueryParams to guarantee parity
 		// with interpreter mode (issue #240).
-		rawQuery := map[string][]string(ctx.Request.URL.Query())
-		queryParams, qErr := interpreter.ProcessQueryParams(rawQuery, route.QueryParams)
+		// Parsed with the interpreter's own parser, which reports what it
+		// cannot parse: URL.Query() silently drops such pairs (page=%zz,
+		// page=1;2), so the declared parameter looked absent and the body ran
+		// with null where the interpreted route answers 400.
+		rawQuery, qErr := interpreter.ExtractRawQueryParams("?" + ctx.Request.URL.RawQuery)
+		var queryParams map[string]interface{}
+		if qErr == nil {
+			queryParams, qErr = interpreter.ProcessQueryParams(rawQuery, route.QueryParams)
+		}
 		if qErr != nil {
 			// Same pattern as success responses below (ctx.StatusCode +
 			// WriteHeader): ctx.StatusCode is for middleware/logging, but
